@@ -232,6 +232,7 @@ theorem slotOkB_complete (S : Schema) (f : FieldD) : ∀ (v : Val), SlotOk S f v
     | wrap _ w _ hf hv => simp [scalarOk] at hv
     | unsetMapS _ hf => simp [mapFieldSB_complete f hf]
     | unsetMapM _ c hf => simp [mapFieldMAnyB_complete f c hf]
+    | unsetAny _ ho => simp [ho]
   | .none, h => by
     rw [slotOkB]
     cases h with
@@ -241,6 +242,7 @@ theorem slotOkB_complete (S : Schema) (f : FieldD) : ∀ (v : Val), SlotOk S f v
     | noneSub _ c hf ho => simp [subFieldAnyB_complete f c hf, ho]
     | noneTime _ b hf ho => simp [timeFieldAnyB_complete f b hf, ho]
     | noneWrap _ w hf hg => simp [wrapFieldAnyB_complete f w hf, hg]
+    | noneAny _ ho => simp [ho]
     | wrap _ w _ hf hv => simp [scalarOk] at hv
   | .msg c sl ow unk cur, h => by
     rw [slotOkB]
